@@ -81,13 +81,13 @@ func (g *gen) writeMarkerInput(snap *storagesc.VerifStorageSnap, al *allocInfo, 
 	return map[string]interface{}{"allocation_root": root, "prev_allocation_root": prev, "write_marker": wm}, root
 }
 
-// readMarkerInput builds a read_redeem input. signer signs; pubOf is the key whose public key/id is written
-// into the marker as the reading client.
-func (g *gen) readMarkerInput(al *allocInfo, b *prov, client *world.Key, signer *world.Key, ctr int64, ts int64) map[string]interface{} {
-	hashData := fmt.Sprintf("%v:%v:%v:%v:%v:%v:%v", al.id, b.key.ID, client.ID, client.Pub, al.owner.ID, ctr, ts)
+// readMarkerInput builds a read_redeem input for the reading client `client`. signer signs; pub is the public
+// key written into the marker (the client's own for a well-formed one).
+func (g *gen) readMarkerInput(al *allocInfo, b *prov, client *world.Key, signer *world.Key, pub string, ctr int64, ts int64) map[string]interface{} {
+	hashData := fmt.Sprintf("%v:%v:%v:%v:%v:%v:%v", al.id, b.key.ID, client.ID, pub, al.owner.ID, ctr, ts)
 	sig := signer.Sign(encryption.Hash(hashData))
 	rm := map[string]interface{}{
-		"client_id": client.ID, "client_public_key": client.Pub, "blobber_id": b.key.ID, "allocation_id": al.id,
+		"client_id": client.ID, "client_public_key": pub, "blobber_id": b.key.ID, "allocation_id": al.id,
 		"owner_id": al.owner.ID, "timestamp": ts, "counter": ctr, "signature": sig,
 	}
 	return map[string]interface{}{"read_marker": rm}
